@@ -233,6 +233,9 @@ func CheckC11(e *Env) int {
 			cases = append(cases, &RejectCase{P: p, Class: "bad-bind", Cell: "illegal:" + c.String()})
 		}
 	}
+	// every order in which one consumer can ask for the interface(s), the concrete type and the
+	// concrete type's own input
+	legal = append(legal, bindOrderFamily("bo", e.Seed, e.tierN(4, 1))...)
 	results := RunPool(e, legal, PoolOpts{Execute: true, Name: "c11"})
 	for _, pr := range results {
 		EvalAccepted(pr)
